@@ -57,6 +57,28 @@ pub fn scan(src: &str) -> Vec<(char, bool, usize, bool)> {
                     st.push(St::Url);
                     i += 4;
                     continue;
+                } else if c == '\\' {
+                    // an escape in an identifier: `\31 x` – the hex digits and ONE following
+                    // whitespace character belong to the escape
+                    out.push((c, false, paren, false));
+                    let mut k = i + 1;
+                    let mut hex = 0;
+                    while k < cs.len() && hex < 6 && cs[k].is_ascii_hexdigit() {
+                        out.push((cs[k], false, paren, false));
+                        k += 1;
+                        hex += 1;
+                    }
+                    if hex == 0 {
+                        if k < cs.len() {
+                            out.push((cs[k], false, paren, false));
+                            k += 1;
+                        }
+                    } else if k < cs.len() && (cs[k] == ' ' || cs[k] == '\t' || cs[k] == '\n') {
+                        out.push((cs[k], false, paren, false));
+                        k += 1;
+                    }
+                    i = k;
+                    continue;
                 } else {
                     match c {
                         '(' => paren += 1,
@@ -165,6 +187,56 @@ pub fn gaps(src: &str, c: &mut Chooser) -> (String, usize) {
         if code && top && paren == 0 && (ch == ';' || ch == '{' || ch == '}') && c.chance(1, 2) {
             out.push_str(c.of(&fillers));
             n += 1;
+        }
+    }
+    (out, n)
+}
+
+/// replace single spaces inside declaration / variable values by other whitespace or a silent
+/// comment (`margin: 1px -2px` == `margin: 1px\n-2px`); selectors and at-rule preludes are left
+/// alone (a newline after a comma in a selector list is preserved in expanded output)
+pub fn value_gaps(src: &str, c: &mut Chooser) -> (String, usize) {
+    let fillers = ["\n", "  ", "\n    ", "\t", "\r\n", " // note\n", "\n\n"];
+    let sc = scan(src);
+    let mut out = String::new();
+    let mut n = 0;
+    let mut in_value = false;
+    for (i, (ch, code, paren, top)) in sc.iter().enumerate() {
+        if *code && *top {
+            match ch {
+                ':' if *paren == 0 && !in_value => {
+                    // `prop: value` / `$var: value` – a colon followed by whitespace, after a name
+                    let after_ws = sc.get(i + 1).map_or(false, |x| x.0 == ' ');
+                    let mut k = i;
+                    while k > 0 && is_name_char(sc[k - 1].0) {
+                        k -= 1;
+                    }
+                    // `@unknown-rule: …` is an at-rule prelude (raw text), not a declaration
+                    let at_rule = k > 0 && sc[k - 1].0 == '@';
+                    let before_name = i > 0 && (is_name_char(sc[i - 1].0) || sc[i - 1].0 == '}') && !at_rule;
+                    if after_ws && before_name {
+                        in_value = true;
+                    }
+                }
+                ';' | '{' | '}' if *paren == 0 => in_value = false,
+                _ => {}
+            }
+        }
+        let prev_space = i > 0 && sc[i - 1].0 == ' ';
+        let next_space = sc.get(i + 1).map_or(false, |x| x.0 == ' ');
+        let prev_colon = i > 0 && sc[i - 1].0 == ':';
+        // whitespace directly before a sign is where a list and an operation are told apart:
+        // always rewritten, and with a filler that ends the line
+        let before_sign = sc.get(i + 1).map_or(false, |x| x.0 == '-' || x.0 == '+') && sc.get(i + 2).map_or(false, |x| x.0 != ' ');
+        if in_value && *code && *top && *paren == 0 && *ch == ' ' && !prev_space && !next_space && !prev_colon && (before_sign || c.chance(1, 2)) {
+            if before_sign {
+                out.push_str(c.of(&["\n", "\r\n", " // note\n", "\n\n", "\t", "  "]));
+            } else {
+                out.push_str(c.of(&fillers));
+            }
+            n += 1;
+        } else {
+            out.push(*ch);
         }
     }
     (out, n)
